@@ -74,7 +74,12 @@ fn outside_s(b: &[u8]) -> Result<(Vec<u8>, (BigUint, Vec<BigUint>)), String> {
 
 fn oracle(c: &Case, st: &mut Stats) -> Result<(), String> {
   let t = c.t as usize;
-  let n = t.max(1) + c.extra as usize;
+  let n = if c.sel.extra % 61 == 7 && (1..=8).contains(&t) && c.msg.len() <= 400 {
+    st.class("large-collection(255..2049 shares)");
+    t + [255usize, 256, 257, 1023, 1024, 1025, 2049][(c.sel.extra / 61) as usize % 7]
+  } else {
+    t.max(1) + c.extra as usize
+  };
   st.class(match c.t {
     0 => "t=0",
     1 => "t=1",
@@ -190,7 +195,12 @@ fn oracle(c: &Case, st: &mut Stats) -> Result<(), String> {
   // any t distinct recover exactly the message
   let sel = c.sel.build(n, t);
   let chosen: Vec<adss::Share> = sel.iter().map(|i| shares[*i].clone()).collect();
-  let rec = adss::recover(&chosen).map_err(|e| format!("recover failed on {} distinct shares (t={t}, selection {:?}): {e}", t, sel))?;
+  // the collection arrives as an iterator of a generated shape (recover takes any IntoIterator)
+  let ishape = (c.sel.rot >> 3) as u8;
+  st.class(&format!("iterator={}", ITER_SHAPES[ishape as usize % ITER_SHAPES.len()]));
+  let rec = adss::recover(shaped(ishape, &chosen)).map_err(|e| {
+    format!("recover failed on {} distinct shares (t={t}, selection {:?}, handed over as {}): {e}", t, sel, ITER_SHAPES[ishape as usize % ITER_SHAPES.len()])
+  })?;
   if rec.get_message() != c.msg.0 {
     return Err(format!("recovered message {} differs from the shared one {}", hx(&rec.get_message()), hx(&c.msg)));
   }
@@ -222,7 +232,7 @@ fn oracle(c: &Case, st: &mut Stats) -> Result<(), String> {
   let mixed: Vec<adss::Share> = msel.iter().map(|i| union[*i].clone()).collect();
   let olds = msel.iter().filter(|i| *i % 2 == 0).count();
   st.class(if olds > 0 && olds < msel.len() { "reshare-mix=old+new" } else { "reshare-mix=one-kind" });
-  let rec2 = adss::recover(&mixed).map_err(|e| format!("mixed old/new shares do not recover (t={t}, selection {:?}): {e}", msel))?;
+  let rec2 = adss::recover(shaped((c.mix.rot >> 3) as u8, &mixed)).map_err(|e| format!("mixed old/new shares do not recover (t={t}, selection {:?}): {e}", msel))?;
   if rec2.get_message() != c.msg.0 {
     return Err("mixed old/new shares recover a different message".into());
   }
